@@ -546,6 +546,58 @@ def check_c20(tier, seed, res, work):
             res.tie_broken.append('correspondence (bundle): model consume differs from downloadRuleset (trial %d)' % trial)
         if trial < 2:
             samples.append(dict(files=[nme for nme, _ in entries], decoys=[nme for nme, _ in decoys]))
+        # packaging AGAIN after the directory changed, with a bundle of the earlier state still in place: a rule edited
+        # in place with its modification time preserved (cp -p, rsync -t, archive extraction), an older revision
+        # restored with an old time stamp, a rule removed, one added with an old time stamp
+        if trial % 2 == 0:
+            cur = dict(entries)
+            for step in range(4):
+                names = sorted(cur)
+                if step == 0 and names:
+                    nm = names[0]
+                    st_ = os.stat(os.path.join(rdir, nm))
+                    cur[nm] = cur[nm] + b' /* edited, same time stamp */'
+                    open(os.path.join(rdir, nm), 'wb').write(cur[nm])
+                    os.utime(os.path.join(rdir, nm), ns=(st_.st_atime_ns, st_.st_mtime_ns))
+                    what = 'a rule edited in place, modification time preserved'
+                elif step == 1 and names:
+                    nm = names[-1]
+                    cur[nm] = b'FROM older AS revision SELECT revision'
+                    open(os.path.join(rdir, nm), 'wb').write(cur[nm])
+                    os.utime(os.path.join(rdir, nm), (1000000000, 1000000000))
+                    st_d = os.stat(rdir)
+                    os.utime(rdir, (1000000000, 1000000000))
+                    what = 'an older revision restored with an old time stamp'
+                elif step == 2 and len(names) > 1:
+                    nm = names[0]
+                    os.remove(os.path.join(rdir, nm))
+                    del cur[nm]
+                    os.utime(rdir, (1000000000, 1000000000))
+                    what = 'a rule removed'
+                elif step == 3:
+                    nm = 'added_later.cql'
+                    cur[nm] = b'FROM added AS later SELECT later'
+                    open(os.path.join(rdir, nm), 'wb').write(cur[nm])
+                    os.utime(os.path.join(rdir, nm), (1000000000, 1000000000))
+                    os.utime(rdir, (1000000000, 1000000000))
+                    what = 'a rule added with an old time stamp'
+                else:
+                    continue
+                rc, o, e = run([B + '/gen-script'], timeout=120, cwd=root + '/pathfinder-rules/gen-script')
+                rc2, o2, e2 = run([B + '/harness', 'bundle-load', bundle, rdir, root + '/load.out'], timeout=120, env=dict(ENV, HOME=work))
+                out = dict((l.split(' ')[0], l.rstrip('\n').split(' ')[1:]) for l in open(root + '/load.out'))
+                stats['repackaging_steps'] += 1
+                if rc != 0 or out.get('HOSTED', ['x'])[0] != 'ok' or out.get('LOCAL', ['x'])[0] != 'ok':
+                    res.violations.append(dict(replay, what='packaging again failed (%s)' % what, detail=str(out)[:300]))
+                    break
+                hosted = sorted(re.findall(r'x[0-9a-f]*', out['HOSTED'][1]))
+                local = sorted(re.findall(r'x[0-9a-f]*', out['LOCAL'][1]))
+                if hosted != local or local != sorted(hx(v) for v in cur.values()):
+                    oh = [unhx(x).decode('utf-8', 'replace') for x in hosted if x not in local][:1]
+                    ol = [unhx(x).decode('utf-8', 'replace') for x in local if x not in hosted][:1]
+                    res.violations.append(dict(replay, what='after %s and packaging again, the bundle does not hold the rules of the directory' % what, step=step, changed=nm, only_hosted=oh, only_local=ol,
+                                               how='run the bundling script, change the directory as described (the first bundle stays in docs/public/rules), run the script again, load both ways'))
+                    break
         shutil.rmtree(root, ignore_errors=True)
     return stats, samples
 
